@@ -77,6 +77,7 @@ def gen_c37(d, opts):
     # generator-side shadow of the session state: keeps most operations meaningful
     # (the interpreter stays total: ~10% of the operations ignore the shadow)
     st = dict(open=True, disk=False, mode="rw")
+    lastval = {}
     for i in range(1, nops + 1):
         if d.chance("wild", 0.1):
             table = [("put", 7), ("get", 5), ("del", 4), ("ctx", 2), ("unload_all", 1), ("contains", 2), ("approx", 3), ("items", 1), ("close", 2), ("open_rw", 2), ("open_ro", 1), ("abandon", 1), ("create", 1)]
@@ -103,7 +104,13 @@ def gen_c37(d, opts):
         if kind in ("put", "get", "del", "ctx", "contains"):
             op["key"] = hot if d.chance("usehot", hot_p) else d.pick("opkey", pool)
         if kind == "put":
-            op["val"] = gen_val(d, uid, 2)
+            prev = lastval.get(values.key_id(op["key"]))
+            if prev is not None and d.chance("twin", 0.25):
+                # overwrite with a value that is ==-equal but bitwise different
+                op["val"] = dict(prev, twin=uid)
+            else:
+                op["val"] = gen_val(d, uid, 2)
+            lastval[values.key_id(op["key"])] = op["val"]
             uid += 1
         if kind == "approx":
             k = d.pick("opkey", pool)
@@ -176,6 +183,10 @@ def gen_extras(d, tag, rpool, uid):
         out.append(dict(op="load_recipes", recipes=d.sample(f"x:{tag}:rs", rpool, d.between(f"x:{tag}:nr", 1, len(rpool)))))
     if d.chance(f"x:{tag}:update", 0.15):
         out.append(dict(op="update"))
+    if d.chance(f"x:{tag}:metalow", 0.2):
+        n = d.between(f"x:{tag}:nxl", 2, 5)
+        grid = sorted(set(round(d.uniform(f"x:{tag}:xvl", 1e-4, 0.9), 6) for _ in range(n - 1))) + [1.0]
+        out.append(dict(op="meta_lowlevel", grid=grid))
     return d.shuffle(f"x:{tag}:order", out)
 
 
@@ -207,8 +218,16 @@ def gen_c36(d, opts):
     i += 1
     ops.append(dict(id=i, op="open_rw"))
     i += 1
+    firstvals = {values.key_id(o["key"]): o["val"] for o in ops if o["op"] == "put"}
     for k in d.sample("c36:second", pool, d.between("c36:nsecond", 0, len(pool))):
-        ops.append(dict(id=i, op="put", key=k, val=gen_val(d, uid, 2, big=True)))
+        prev = firstvals.get(values.key_id(k))
+        if prev is not None and d.chance("c36:twin", 0.4):
+            if d.chance("c36:twinload", 0.6):
+                ops.append(dict(id=i, op="get", key=k))
+                i += 1
+            ops.append(dict(id=i, op="put", key=k, val=dict(prev, twin=uid)))
+        else:
+            ops.append(dict(id=i, op="put", key=k, val=gen_val(d, uid, 2, big=True)))
         i += 1
         uid += 1
     if d.chance("c36:touch", 0.5):
@@ -730,7 +749,7 @@ class Interp:
             return True
         if kind == "verify":
             return self.do_verify(op)
-        if kind in ("set_xgrid", "put_part", "load_recipes", "update"):
+        if kind in ("set_xgrid", "put_part", "load_recipes", "update", "meta_lowlevel"):
             if mode != "rw":
                 return False
             return self.do_extra(op, kind)
@@ -746,6 +765,13 @@ class Interp:
             if kind == "set_xgrid":
                 g = interpolation.XGrid(op["grid"], log=op.get("log", True))
                 eko.xgrid = g
+                sess["meta"] = dict(sess["meta"])
+                sess["meta"]["xgrid"] = g.dump()["grid"]
+            elif kind == "meta_lowlevel":
+                # the public metadata container: change a field, persist it with its own update()
+                g = interpolation.XGrid(op["grid"])
+                eko.metadata.xgrid = g
+                eko.metadata.update()
                 sess["meta"] = dict(sess["meta"])
                 sess["meta"]["xgrid"] = g.dump()["grid"]
             elif kind == "put_part":
